@@ -768,6 +768,7 @@ class Plane(Generic[LTComponentT]):
 
     def __init__(self, bbox: Rect, gridsize: int = 50) -> None:
         self._seq: List[LTComponentT] = []  # preserve the object order.
+        self._serial: Dict[LTComponentT, int] = {}  # position in that order.
         self._objs: Set[LTComponentT] = set()
         self._removed: Set[LTComponentT] = set()  # removed, but still in _seq.
         self._grid: Dict[Point, List[LTComponentT]] = {}
@@ -816,6 +817,7 @@ class Plane(Generic[LTComponentT]):
             else:
                 r = self._grid[k]
             r.append(obj)
+        self._serial[obj] = self._serial[self._seq[-1]] + 1 if self._seq else 0
         self._seq.append(obj)
         self._objs.add(obj)
 
@@ -830,9 +832,14 @@ class Plane(Generic[LTComponentT]):
         self._removed.add(obj)
 
     def find(self, bbox: Rect) -> Iterator[LTComponentT]:
-        """Finds objects that are in a certain area."""
+        """Finds objects that are in a certain area.
+
+        The objects come in the order in which they were added to the plane,
+        whatever the grid cells they lie in.
+        """
         (x0, y0, x1, y1) = bbox
         done = set()
+        found = []
         for k in self._getrange(bbox):
             if k not in self._grid:
                 continue
@@ -842,7 +849,9 @@ class Plane(Generic[LTComponentT]):
                 done.add(obj)
                 if obj.x1 <= x0 or x1 <= obj.x0 or obj.y1 <= y0 or y1 <= obj.y0:
                     continue
-                yield obj
+                found.append(obj)
+        found.sort(key=self._serial.__getitem__)
+        return iter(found)
 
 
 ROMAN_ONES = ["i", "x", "c", "m"]
